@@ -26,23 +26,103 @@ COMMON_ASSUMPTIONS = [
 F = "futures."
 B = "batching."
 
+S = "scheduler.TaskScheduler."
+T = "async_task.AsyncTask."
+X = "contexts."
+SV = "scoped_value."
+
+FUT = [F + n for n in [
+    "FutureBase.__init__", "FutureBase.is_computed", "FutureBase.value", "FutureBase.__call__",
+    "FutureBase.error", "FutureBase.set_value", "FutureBase.set_error", "FutureBase.reset_unsafe",
+    "FutureBase._computed", "FutureBase._compute", "FutureBase.raise_if_error",
+    "Future.__init__", "Future._compute", "ConstFuture.__init__", "ErrorFuture.__init__"]]
+BAT = [B + n for n in [
+    "BatchBase.__init__", "BatchBase.is_flushed", "BatchBase.is_cancelled", "BatchBase.is_empty",
+    "BatchBase.get_priority", "BatchBase.flush", "BatchBase.cancel", "BatchBase._compute",
+    "BatchBase._computed", "BatchItemBase.__init__", "BatchItemBase._compute"]]
+STEP = [T + n for n in ["_continue", "_continue_on_generator", "_accept_yield_result", "_queue_exit",
+                        "_queue_throw_error", "_accept_error", "_compute", "_computed", "is_blocked", "__init__",
+                        "can_continue"]]
+CTX = [T + n for n in ["_enter_context", "_leave_context", "_pause_contexts", "_resume_contexts"]]
+
+A_ENV_GEN = ("the task body is unknown code behind generator.send/throw/close (environment contract E1/E2); E4: awaiting is acyclic - "
+             "while a task's body runs or its context hooks run nothing re-enters that task (site assumptions in contracts/*_c.py)")
+A_UNWRAP = ("unwrap / extract_futures are used through their contracts; their bodies are covered by the bounded stand-in "
+            "bounded:structures (all yielded structures to depth 3 / width 3), labelled bounded, not proved")
+
 PROPERTIES = {
+    "C01": {
+        "functions": [T + "_continue", T + "_continue_on_generator", T + "_accept_yield_result", T + "_queue_exit",
+                      T + "_compute", T + "_computed", F + "FutureBase.value", F + "FutureBase.set_value",
+                      S + "wait_for", S + "_execute", S + "_continue_with_task"],
+        "assumptions": [A_ENV_GEN, A_UNWRAP,
+                        "composition argument (prose, DESIGN.md C01): a generator is a deterministic function of the values sent into it, so per-step contracts give equality with sequential evaluation by induction over the finite acyclic computation"],
+        "bounded": [{"name": "structures", "quick": True}],
+        "not_proved": ["whole-program equality with sequential evaluation (composition argument)", "unwrap/extract_futures bodies (bounded)"],
+    },
+    "C02": {
+        "functions": [T + "_continue", T + "_accept_error", T + "_queue_throw_error", T + "is_blocked",
+                      T + "_continue_on_generator", S + "_handle_async_task", S + "_execute",
+                      F + "Future._compute", F + "FutureBase.value", F + "FutureBase.raise_if_error", F + "FutureBase.set_error",
+                      B + "BatchBase._compute", B + "BatchBase._computed"],
+        "assumptions": [A_ENV_GEN, A_UNWRAP, "qcore.errors.reraise raises its argument"],
+        "bounded": [{"name": "structures", "quick": True}],
+    },
+    "C03": {
+        "functions": [T + "is_blocked", T + "_continue", T + "_continue_on_generator", T + "__init__", T + "_computed",
+                      T + "_accept_yield_result", S + "_handle_async_task", S + "_execute", S + "_continue_with_task",
+                      S + "wait_for"],
+        "assumptions": [A_ENV_GEN, A_UNWRAP, "termination is not decided (liveness); lemma cnt-monotone is proved by its two induction cases"],
+        "lemmas": ["cnt-monotone"],
+        "not_proved": ["termination / very deep chains (liveness)", "the DFS postcondition Settled of _execute (see C04)"],
+    },
+    "C04": {
+        "functions": [S + "_execute", S + "wait_for", S + "_continue_with_batch", S + "_handle_async_task",
+                      S + "_schedule_batch", S + "_continue_with_task", S + "_select_batch_to_flush"],
+        "assumptions": [A_ENV_GEN],
+        "lemmas": ["cnt-monotone"],
+        "not_proved": ["the protocol-level inductive invariant Settled (every unfinished task blocked on an unflushed item) is not discharged: "
+                       "what is proved are the local contracts it rests on (first visit pushes every uncomputed dependency in order, second visit pops and "
+                       "clears the flag, unblocked tasks are continued, exactly one flush between two passes, nothing flushed once the task is computed)"],
+    },
+    "C05": {
+        "functions": [S + "_select_batch_to_flush", S + "_continue_with_batch", S + "_flush_batch", S + "wait_for",
+                      S + "_schedule_batch", B + "BatchBase.flush", B + "BatchBase._compute", B + "BatchBase._computed",
+                      B + "BatchBase.get_priority", B + "BatchBase.is_flushed", B + "BatchBase.is_empty",
+                      B + "BatchItemBase._compute"],
+        "assumptions": ["get_priority() is pure, deterministic and totally ordered (strict weak order axioms) while the scheduler selects",
+                        "user _flush/_cancel/_try_switch_active_batch obey the environment contracts (E1-E3)"],
+    },
+    "C06": {
+        "functions": CTX + [X + n for n in ["enter_context", "leave_context", "AsyncContext.__enter__", "AsyncContext.__exit__",
+                                             "NonAsyncContext.__enter__", "NonAsyncContext.__exit__", "NonAsyncContext.pause",
+                                             "NonAsyncContext.resume"]] + [S + "_handle_async_task", S + "_continue_with_task"],
+        "assumptions": [A_ENV_GEN, "user pause()/resume() hooks obey env.ctx.pause/resume (ghost counters and timestamps; E4'': do not advance pre-existing tasks)",
+                        "a context object is entered at most once at a time in a task"],
+        "not_proved": ["global alternation across tasks (needs the Settled/J4 invariant of _execute); the close()-while-paused double pause is a recorded finding"],
+    },
+    "C07": {
+        "functions": [T + "_pause_contexts", T + "_resume_contexts"] + [SV + n for n in [
+            "AsyncScopedValue.__init__", "AsyncScopedValue.get", "AsyncScopedValue.set", "AsyncScopedValue.override",
+            "AsyncScopedValue.__call__", "_AsyncScopedValueOverrideContext.__init__", "_AsyncScopedValueOverrideContext.resume",
+            "_AsyncScopedValueOverrideContext.pause", "_AsyncPropertyOverrideContext.__init__",
+            "_AsyncPropertyOverrideContext.resume", "_AsyncPropertyOverrideContext.pause"]] + [S + "_handle_async_task"],
+        "assumptions": [A_ENV_GEN],
+        "lemmas": ["lifo-save-restore"],
+    },
+    "C08": {
+        "functions": [S + "_continue_with_task", S + "_execute", S + "reset", S + "wait_for", S + "_handle_async_task",
+                      T + "_continue", T + "_continue_on_generator"],
+        "assumptions": [A_ENV_GEN, "context hooks and value providers do not trip (and swallow) the runaway-recursion guard of the scheduler they run under"],
+    },
     "C10": {
-        "functions": [F + n for n in [
-            "FutureBase.__init__", "FutureBase.is_computed", "FutureBase.value", "FutureBase.__call__",
-            "FutureBase.error", "FutureBase.set_value", "FutureBase.set_error", "FutureBase.reset_unsafe",
-            "FutureBase._computed", "FutureBase._compute", "FutureBase.raise_if_error",
-            "Future.__init__", "Future._compute", "ConstFuture.__init__", "ErrorFuture.__init__"]],
+        "functions": FUT + [T + "_queue_exit", T + "_queue_throw_error", T + "_accept_error", T + "_computed"],
         "assumptions": ["qcore.events.EventHook.safe_trigger calls every handler once then re-raises the first error (contract written from its shipped source)",
                         "qcore.errors.reraise raises its argument"],
         "not_proved": ["induction over the operation history is the standard meta-theorem (object invariant + per-operation contract), not machine-checked"],
     },
     "C11": {
-        "functions": [B + n for n in [
-            "BatchBase.__init__", "BatchBase.is_flushed", "BatchBase.is_cancelled", "BatchBase.is_empty",
-            "BatchBase.get_priority", "BatchBase.flush", "BatchBase.cancel", "BatchBase._compute",
-            "BatchBase._computed", "BatchItemBase.__init__", "BatchItemBase._compute"]] + [
-            F + "FutureBase.set_value", F + "FutureBase.set_error", F + "FutureBase.error", F + "FutureBase.value"],
+        "functions": BAT + [F + "FutureBase.set_value", F + "FutureBase.set_error", F + "FutureBase.error", F + "FutureBase.value"],
         "assumptions": ["user _flush/_cancel/_try_switch_active_batch obey the environment contracts in contracts/batching_c.py (E1-E3); _cancel and _try_switch_active_batch do not raise (documented requirement)"],
     },
 }
